@@ -6,6 +6,7 @@ import numpy as np
 from .. import coqio as cq
 from .. import gen
 from ..impl import da, make_gmm, gmm_term, hexlist
+from bob.learn.em import gmm as gmm_module
 
 IMPORTS = "Model.GMM Corr.CorrBase Corr.CorrGMM"
 
@@ -33,7 +34,13 @@ def run(chk):
         D = r.choice([1, 2, 3, 5])
         scale = r.choice(["unit", "mixed", "wide"])
         mode = modes[i % len(modes)]
+        highdim = None
+        if i % 10 == 9:
+            # many features: the product of the variances leaves the binary64 range although every single one is ordinary
+            C, D, scale, highdim = r.choice([1, 2]), r.choice([60, 150, 400]), "unit", r.choice([1e-2, 1e2, 3e-1])
         w, mu, var, s = gen.gen_gmm(r, C, D, scale)
+        if highdim is not None:
+            mu, var, s = mu * highdim, var * highdim ** 2, s * highdim
         thr = r.choice([None, 1e-3 * float(s.min()) ** 2, list(0.5 * s ** 2)])
         tiny = None
         if i % 5 == 3 and C >= 2:
@@ -64,7 +71,7 @@ def run(chk):
         terms.append("{| lc_m := %s; lc_x := %s; lc_lwl := %s; lc_ll := %s |}" % (gmm_term(m), cq.mat(X), cq.mat(lwl), cq.vec(ll)))
         floor_active = bool(np.any(m.variances > np.asarray(var) * (1 + 1e-12)))
         metas.append((C, D, scale, mode, N, floor_active, order, tiny is not None))
-        chk.count(1, key=("corr", C, D, scale, mode, floor_active, order, tiny is not None))
+        chk.count(1, key=("corr", C, D if D <= 5 else "many", scale, mode, floor_active, order, tiny is not None))
         if i < 2:
             chk.sample({"entry": "log_likelihood", "C": C, "D": D, "scale": scale, "mode": mode,
                         "x": hexlist(X), "ll": hexlist(ll)})
@@ -84,6 +91,14 @@ def run(chk):
             if not abs(lse - got) <= tol:
                 chk.fail("per-component weighted log-likelihoods do not log-sum-exp to log_likelihood",
                          {"entry": "log_weighted_likelihood", "x": hexlist(X[j]), "lse": lse, "ll": got})
+            # the per-component entry points given ONE sample as a plain vector: the same C values as its column in the batch
+            for nm, fn in (("GMMMachine.log_weighted_likelihood", m.log_weighted_likelihood),
+                           ("gmm.log_weighted_likelihood", lambda v: gmm_module.log_weighted_likelihood(v, m))):
+                col = np.asarray(fn(X[j]), dtype=float)
+                if not (col.size == C and np.allclose(col.ravel(), lwl[:, j], rtol=1e-12, atol=1e-12)):
+                    chk.fail("%s of a single sample given as a vector differs from its column in the batch (shape %s)" % (nm, col.shape),
+                             {"entry": nm + " 1-D", "x": hexlist(X[j]), "weights": hexlist(m.weights), "means": hexlist(m.means),
+                              "variances": hexlist(V), "shape": [C, D]})
             # single sample == same sample inside the batch
             one = float(np.asarray(m.log_likelihood(X[j]))[0])
             if not (one == got or abs(one - got) <= 1e-12 * max(1.0, abs(got))):
@@ -109,7 +124,7 @@ def run(chk):
     chk.partial = ["gauss1_integral_partial: integrates-to-one reduced to the Gaussian integral (hypothesis of the lemma)",
                    "binary64 finiteness in the tails is exhibited by the float model and the implementation runs, not proved"]
     return chk.finish(
-        rule="structured generator: C in {1..8}, D in {1,2,3,5}, feature scales unit/1e-3..1e3/1e-6..1e6, variance floors none/scalar/per-feature, "
+        rule="structured generator: C in {1..8}, D in {1,2,3,5} and 60/150/400 (product of variances outside the binary64 range), single samples as vectors and in batches, feature scales unit/1e-3..1e3/1e-6..1e6, variance floors none/scalar/per-feature, "
              "samples drawn from the machine, from a shifted machine, duplicated, and 10/100/1000/3000 sigma in the tail; distinct = "
              "(entry, C, D, scale, mode, floor active) or (dask, number of chunks)",
         assumptions=["exp/ln of the float model are within a few ulp of libm (measured by this run)"])
